@@ -35,7 +35,21 @@ type action struct {
 	T    string          `json:"t"`
 	To   json.RawMessage `json:"to"`
 	From int             `json:"from"`
+	K    json.RawMessage `json:"k"`
+	Drop int             `json:"drop"`
 	Out  string          `json:"out"`
+}
+
+func (a *action) kInt() int {
+	var i int
+	_ = json.Unmarshal(a.K, &i)
+	return i
+}
+
+func (a *action) kStr() string {
+	var x string
+	_ = json.Unmarshal(a.K, &x)
+	return x
 }
 
 func (a *action) toInt() int {
@@ -452,6 +466,13 @@ func runBehaviour(t *testing.T, in *vio.Input, bi int, b vio.Behaviour, v varian
 	queued := map[string][]string{}   // payloads queued to the session's send channel, in order
 	curPayload := map[string]string{} // the payload the uplink is working on
 	replyFrom := map[string]string{}  // target the pending reply was sent from
+	type reply struct {
+		kind    string
+		payload string
+	}
+	replyQ := map[string][]reply{} // replies that arrived at the session's socket, not read yet
+	gotQ := map[string][]reply{}   // the batch the downlink is working on
+	replySeq := map[string]int{}
 	lastTarget := map[string]string{}
 	// waitCleanup waits for the next not-yet-consumed cleanup signal of the session
 	waitCleanup := func(sess string, timeout time.Duration) bool {
@@ -783,23 +804,38 @@ func runBehaviour(t *testing.T, in *vio.Input, bi int, b vio.Behaviour, v varian
 				brk("uplink did not re-arm")
 				return
 			}
-		case "DlRecv":
+		case "TargetReply":
 			checkArrivals(si)
 			na, ok := natAddr[a.S]
 			if !ok {
 				brk("no datagram of this session has reached a target yet")
 				return
 			}
+			replySeq[a.S]++
+			rp := reply{kind: a.kStr(), payload: fmt.Sprintf("re:%s:%d", a.S, replySeq[a.S])}
+			if rp.kind == "big" {
+				// fits the session socket's receive buffer (1472 with the direct client's MTU 1500), but with the server
+				// protocol's header it exceeds what may be sent to the client
+				rp.payload = fmt.Sprintf("BIG:%s:%d:", a.S, replySeq[a.S])
+				rp.payload += strings.Repeat("B", 1470-len(rp.payload))
+			}
 			replyFrom[a.S] = lastTarget[a.S]
-			from := e.targets[lastTarget[a.S]]
-			if _, err := from.Conn.WriteToUDPAddrPort([]byte("re:"+a.S), na); err != nil {
+			if _, err := e.targets[lastTarget[a.S]].Conn.WriteToUDPAddrPort([]byte(rp.payload), na); err != nil {
 				brk("%v", err)
 				return
 			}
+			replyQ[a.S] = append(replyQ[a.S], rp)
+		case "DlRead":
 			if pt, ok := w.waitParked(a.S, "downlink", stepTimeout, "relay.downlink.afterRecv"); !ok {
 				brk("downlink did not receive the reply (at %q)", pt)
 				return
 			}
+			k := a.kInt()
+			if k > len(replyQ[a.S]) {
+				k = len(replyQ[a.S])
+			}
+			gotQ[a.S] = append(gotQ[a.S], replyQ[a.S][:k]...)
+			replyQ[a.S] = replyQ[a.S][k:]
 		case "DlSendBack":
 			if !w.release(a.S, "downlink") {
 				brk("downlink not parked")
@@ -814,16 +850,32 @@ func runBehaviour(t *testing.T, in *vio.Input, bi int, b vio.Behaviour, v varian
 				brk("the model sends the reply to an address the client never used")
 				return
 			}
-			d, ok := owner.Recv(stepTimeout)
-			if !ok {
-				fail("relay.isolation/reply-lost", fmt.Sprintf("the reply was not delivered to the session's latest authenticated client address (#%d)", want), si, a.S, nil)
-			} else {
-				src, payload, err := wr.unpack(a.S, d.Payload, addr)
-				if err != nil || string(payload) != "re:"+a.S {
-					fail("relay.isolation/reply-garbled", "the client received something else than the reply", si, "re:"+a.S, fmt.Sprintf("%q (%v)", d.Payload, err))
-				} else if want := e.targets[replyFrom[a.S]].Addr.String(); src != want {
-					fail("relay.isolation/reply-wrong-source", "the reply does not carry the true source", si, want, src)
+			warnsBefore := warnCount()
+			_ = warnsBefore
+			batch := gotQ[a.S]
+			gotQ[a.S] = nil
+			noks := 0
+			for _, rp := range batch {
+				if rp.kind != "ok" {
+					continue
 				}
+				noks++
+				d, ok := owner.Recv(stepTimeout)
+				if !ok {
+					fail("relay.isolation/reply-lost", fmt.Sprintf("reply %q was not delivered to the session's latest authenticated client address (#%d)", rp.payload, want), si, rp.payload, nil)
+					break
+				}
+				src, payload, err := wr.unpack(a.S, d.Payload, addr)
+				if err != nil || string(payload) != rp.payload {
+					fail("relay.isolation/reply-garbled", "the client received something else than the next reply, in order, exactly once", si, rp.payload, fmt.Sprintf("%.80q (%v)", payload, err))
+				} else if wantSrc := e.targets[replyFrom[a.S]].Addr.String(); src != wantSrc {
+					fail("relay.isolation/reply-wrong-source", "the reply does not carry the true source", si, wantSrc, src)
+				}
+			}
+			// nothing else may come: a reply the packer refused (too big for the client's path) is dropped, not sent
+			if extra, ok := owner.Recv(60 * time.Millisecond); ok {
+				_, payload, _ := wr.unpack(a.S, extra.Payload, addr)
+				fail("relay.isolation/spurious-reply", fmt.Sprintf("the client received a datagram the relay should not have sent (%d replies were due)", noks), si, noks, fmt.Sprintf("%.80q", payload))
 			}
 			ownKey := fmt.Sprintf("%s@%d", a.S, want)
 			for s2, c := range e.clients {
